@@ -739,27 +739,7 @@ func (c *vfGateConn) run(k vfGateCmd, ans vfGateAns, last bool) (op string, impl
 	}
 	after := vfGateSnap(in.nsqd)
 	seen := in.stub.Seen()
-	q := "none"
-	if len(seen) > 0 {
-		parts := make([]string, len(seen))
-		for i, s := range seen {
-			t := "0"
-			if s.TLS == "true" {
-				t = "1"
-			}
-			parts[i] = t + ":" + vfGateHexS(s.CN) + ":" + vfGateHexS(s.Secret)
-		}
-		q = strings.Join(parts, "+")
-	}
-	st := "init"
-	switch atomic.LoadInt32(&c.client.State) {
-	case stateSubscribed:
-		st = "sub"
-	case stateClosing:
-		st = "closing"
-	}
-	impl = fmt.Sprintf("%s close=%s q=%s tls=%s st=%s authed=%s broker=%s", strings.Join(replies, "|"), vfGateB(closed),
-		q, vfGateB(atomic.LoadInt32(&c.client.TLS) == 1), st, vfGateB(c.client.HasAuthorizations()), vfGateSnapLine(after))
+	impl = c.implLine(replies, closed, seen, after)
 
 	// ------------------------------------------------ direct oracle (the property on the implementation's own outputs)
 	o := in.out
@@ -864,6 +844,177 @@ func (c *vfGateConn) run(k vfGateCmd, ans vfGateAns, last bool) (op string, impl
 		}
 	}
 	return op, impl
+}
+
+
+// implLine: the canonical observation of one command (replies and closure as seen by the client; requests seen by
+// the stub auth server; white-box flags of the server's client object; the broker)
+func (c *vfGateConn) implLine(replies []string, closed bool, seen []vfGateSeen, after map[string]vfGateTopicSnap) string {
+	q := "none"
+	if len(seen) > 0 {
+		parts := make([]string, len(seen))
+		for i, s := range seen {
+			t := "0"
+			if s.TLS == "true" {
+				t = "1"
+			}
+			parts[i] = t + ":" + vfGateHexS(s.CN) + ":" + vfGateHexS(s.Secret)
+		}
+		q = strings.Join(parts, "+")
+	}
+	st := "init"
+	switch atomic.LoadInt32(&c.client.State) {
+	case stateSubscribed:
+		st = "sub"
+	case stateClosing:
+		st = "closing"
+	}
+	return fmt.Sprintf("%s close=%s q=%s tls=%s st=%s authed=%s broker=%s", strings.Join(replies, "|"), vfGateB(closed),
+		q, vfGateB(atomic.LoadInt32(&c.client.TLS) == 1), st, vfGateB(c.client.HasAuthorizations()), vfGateSnapLine(after))
+}
+
+// runPipelined: the STARTTLS-injection attempt. ONE plaintext write carries the TLS-negotiating IDENTIFY `k` and,
+// right behind it, the command lines `behind` — so that they are already in the buffer of the server's plaintext
+// reader when the handshake starts. Then the regular handshake (CA-signed client certificate), then a barrier inside
+// the TLS stream: an IDENTIFY with feature negotiation and without tls_v1, whose JSON answer is unmistakable — every
+// frame that arrives between the handshake's OK and that JSON is an answer to one of the plaintext lines.
+// Lines emitted: cp (the IDENTIFY), one cb per pipelined line (reader generation 0), cz (the barrier).
+func (c *vfGateConn) runPipelined(k vfGateCmd, behind []vfGateCmd, ans vfGateAns) {
+	in := c.inst
+	o := in.out
+	in.stub.Script(ans)
+	before := vfGateSnap(in.nsqd)
+	var wire []byte
+	wire = append(wire, k.Wire()...)
+	for _, b := range behind {
+		wire = append(wire, b.Wire()...)
+	}
+	cpOp := fmt.Sprintf("cp %d %d %s %s", c.id, c.vnow, ans.Line(), k.Line())
+	var replies []string
+	closed := false
+	c.cur.SetWriteDeadline(time.Now().Add(5 * time.Second))
+	if _, err := c.cur.Write(wire); err != nil {
+		replies, closed = []string{"WRITE-ERR"}, true
+	} else if f, err := c.readFrame(5 * time.Second); err != nil {
+		if vfGateIsTimeout(err) {
+			replies = append(replies, "TIMEOUT")
+		}
+		closed = true
+	} else if f.typ == frameTypeError {
+		code := vfGateErrCode(f.data)
+		if c.closesAfterError() {
+			replies, closed = append(replies, code+":fatal"), true
+		} else {
+			replies = append(replies, code+":nonfatal")
+		}
+	} else if len(f.data) > 0 && f.data[0] == '{' {
+		var r struct {
+			TLSv1        bool `json:"tls_v1"`
+			AuthRequired bool `json:"auth_required"`
+		}
+		json.Unmarshal(f.data, &r)
+		replies = append(replies, fmt.Sprintf("ident:tls=%s:auth=%s", vfGateB(r.TLSv1), vfGateB(r.AuthRequired)))
+		if r.TLSv1 {
+			okTLS := false
+			tc := tls.Client(c.raw, c.clientTLSConfig(k.Cert))
+			tc.SetDeadline(time.Now().Add(5 * time.Second))
+			if err := tc.Handshake(); err == nil {
+				tc.SetDeadline(time.Time{})
+				c.cur = tc
+				if f2, err := c.readFrame(5 * time.Second); err == nil && f2.typ == frameTypeResponse && string(f2.data) == "OK" {
+					okTLS = true
+				}
+			}
+			if okTLS {
+				replies = append(replies, "OK")
+				c.tlsDone = true
+			} else {
+				replies, closed = append(replies, "E_IDENTIFY_FAILED:fatal"), true
+			}
+		}
+	} else {
+		replies = append(replies, string(f.data))
+	}
+	if closed {
+		c.waitGone()
+		c.closed = true
+	}
+	o.checks++
+	o.hist["cmd:IDENTIFY+pipelined"]++
+	o.Case(cpOp, c.implLine(replies, closed, in.stub.Seen(), vfGateSnap(in.nsqd)))
+
+	// the barrier, and what arrives before its answer
+	var extras, barrier []string
+	extrasFatal := false
+	bclosed := closed
+	bk := vfGateCmd{Name: "IDENTIFY", BodyOK: true, FN: true, Cert: "nocert"}
+	bk.Body, _ = json.Marshal(map[string]interface{}{"client_id": "v", "hostname": "h", "feature_negotiation": true, "tls_v1": false})
+	bk.Size = len(bk.Body)
+	if !closed {
+		c.cur.SetWriteDeadline(time.Now().Add(5 * time.Second))
+		if _, err := c.cur.Write(bk.Wire()); err != nil {
+			barrier, bclosed = []string{"WRITE-ERR"}, true
+		}
+		for !bclosed {
+			f, err := c.readFrame(5 * time.Second)
+			if err != nil {
+				if vfGateIsTimeout(err) {
+					barrier = append(barrier, "TIMEOUT")
+				}
+				bclosed = true
+				break
+			}
+			if f.typ == frameTypeResponse && len(f.data) > 0 && f.data[0] == '{' {
+				var r struct {
+					TLSv1        bool `json:"tls_v1"`
+					AuthRequired bool `json:"auth_required"`
+				}
+				json.Unmarshal(f.data, &r)
+				barrier = append(barrier, fmt.Sprintf("ident:tls=%s:auth=%s", vfGateB(r.TLSv1), vfGateB(r.AuthRequired)))
+				break
+			}
+			if f.typ == frameTypeError {
+				code := vfGateErrCode(f.data)
+				if c.closesAfterError() {
+					extras, bclosed, extrasFatal = append(extras, code+":fatal"), true, true
+				} else {
+					extras = append(extras, code+":nonfatal")
+				}
+			} else {
+				extras = append(extras, string(f.data))
+			}
+		}
+		if bclosed {
+			c.waitGone()
+			c.closed = true
+		}
+	}
+	after := vfGateSnap(in.nsqd)
+	seen := in.stub.Seen()
+	for i, b := range behind {
+		op := fmt.Sprintf("cb %d %d %s 0 %s", c.id, c.vnow, ans.Line(), b.Line())
+		var rs []string
+		if i == 0 {
+			rs = extras // (which of the plaintext lines a frame answers is not decidable from outside: all go to the first)
+		}
+		o.checks++
+		o.hist["cmd:pipelined-"+b.Name]++
+		if in.cfg.DocTLSRequired() != 0 {
+			if len(rs) > 0 {
+				o.Fail("plaintext-injected:"+b.Name, fmt.Sprintf("plaintext sent before the TLS handshake (behind IDENTIFY) was answered inside the TLS session: %v [%s]", rs, op))
+			}
+			if i == 0 && vfGateGrew(before, after) {
+				o.Fail("plaintext-injected-effect:"+b.Name, fmt.Sprintf("plaintext sent before the TLS handshake (behind IDENTIFY) was executed: %s -> %s [%s]", vfGateSnapLine(before), vfGateSnapLine(after), op))
+			}
+		}
+		o.Case(op, c.implLine(rs, i == 0 && extrasFatal, seen, after))
+	}
+	if !closed {
+		o.checks++
+		o.hist["cmd:IDENTIFY"]++
+		o.Case(fmt.Sprintf("cz %d %d %s %s", c.id, c.vnow, ans.Line(), bk.Line()),
+			c.implLine(barrier, bclosed, seen, after))
+	}
 }
 
 // ---------------------------------------------------------------------------- generators
@@ -1243,6 +1394,31 @@ func (in *vfGateInst) scenario() {
 			k.Body, _ = json.Marshal(m)
 			k.Size = len(k.Body)
 		}
+	}
+	if pipe := vfEnvInt("VERIF_GATE_PIPE", 8); in.cfg.Cert && pipe > 0 && r.Intn(pipe) == 0 {
+		// the injection attempt: plaintext command lines in the same write as the TLS-negotiating IDENTIFY
+		k := vfGateCmd{Name: "IDENTIFY", BodyOK: true, FN: true, TLSv1: true, Cert: "trusted"}
+		k.Body, _ = json.Marshal(map[string]interface{}{"client_id": "v", "hostname": "h", "feature_negotiation": true, "tls_v1": true})
+		k.Size = len(k.Body)
+		var behind []vfGateCmd
+		for n := 1 + r.Intn(3); len(behind) < n; {
+			b := in.command(c)
+			if b.Name == "IDENTIFY" || len(b.Wire()) > 2048 {
+				continue
+			}
+			behind = append(behind, b)
+		}
+		in.advance(c)
+		t, ch := behind[0].subject()
+		if t == "" {
+			t = in.pick(vfGateTopics)
+		}
+		t0 := time.Now()
+		c.runPipelined(k, behind, in.answer(t, ch))
+		if os.Getenv("VERIF_GATE_TIMING") != "" {
+			fmt.Fprintf(os.Stderr, "pipelined %v closed=%v\n", time.Since(t0), c.closed)
+		}
+		plan = nil
 	}
 	auths := 65
 	if !in.cfg.Auth {
@@ -1780,7 +1956,8 @@ func TestVerifGateReplay(t *testing.T) {
 				in = nil
 			}
 		}
-		for _, line := range strings.Split(string(raw), "\n") {
+		allLines := strings.Split(string(raw), "\n")
+		for li, line := range allLines {
 			w := strings.Fields(line)
 			if len(w) == 0 {
 				continue
@@ -1828,6 +2005,41 @@ func TestVerifGateReplay(t *testing.T) {
 				fmt.Sscanf(w[1], "%d", &c.id)
 				conns[c.id] = c
 				lines.Case(fmt.Sprintf("conn %d", c.id), "conn")
+			case w[0] == "cz" || w[0] == "cb":
+				continue // regenerated by the cp line they belong to
+			case w[0] == "cp" && len(w) >= 5:
+				var id int
+				fmt.Sscanf(w[1], "%d", &id)
+				c := conns[id]
+				if c == nil || c.closed {
+					continue
+				}
+				fmt.Sscanf(w[2], "%d", &c.vnow)
+				ans, err := vfGateParseAns(w[3])
+				if err != nil {
+					t.Fatal(err)
+				}
+				k, err := in.parseCmd(w[4:])
+				if err != nil {
+					t.Fatal(err)
+				}
+				var behind []vfGateCmd
+				for _, l2 := range allLines[li+1:] {
+					w2 := strings.Fields(l2)
+					if len(w2) >= 6 && w2[0] == "cb" && w2[1] == w[1] {
+						b, err := in.parseCmd(w2[5:])
+						if err != nil {
+							t.Fatal(err)
+						}
+						behind = append(behind, b)
+						continue
+					}
+					if len(w2) > 0 && strings.HasPrefix(w2[0], "#") {
+						continue
+					}
+					break
+				}
+				c.runPipelined(k, behind, ans)
 			case (w[0] == "c" || w[0] == "cx") && len(w) >= 5:
 				var id int
 				fmt.Sscanf(w[1], "%d", &id)
